@@ -78,6 +78,8 @@ def _asm_sig(prop, msg, p=None):
             m = re.search(r"offending line: (\S+)", msg)
             reason = re.sub(r"`[^']*'", "", msg.split("GNU as: ", 1)[-1].split("  [")[0]).strip()
             return "listing-rejected:%s:%s" % (m.group(1) if m else "?", re.sub(r"[^A-Za-z0-9 -]", "", reason)[:50])
+        if "do not assemble as one file" in msg:
+            return "listing-label-collision"
         if "rejected by llvm-mc" in msg:
             if re.search(r"offending line:.*ERROR", msg):
                 return "listing-names-nonexistent-register"      # Orc's own placeholder for a register number it cannot name
